@@ -1109,12 +1109,19 @@ def run_one(seed, run, tier):
 
 
 RULE = ("run i draws, from random.Random(splitmix64(VERIF_SEED,'C12',i)), a "
-        "configuration (2-4 currencies, 2-4 money converters with pairwise "
-        "different constant rates, 2-3 generic converters: scripted stubs "
-        "and real TableConverters) and a token list of <=30 ops over {enter "
-        "c, leave, raise(levels), register c, remove c, register "
-        "non-converter, conversion that raises inside a block, generic "
-        "register/remove}, executed with genuine nested with-statements; "
+        "configuration (2-4 currencies, 3-4 money converters with pairwise "
+        "different rates - constant or dated with a configured date "
+        "callable, twins, converters lacking rates -, 3 generic converters: "
+        "scripted stubs (also unhashable, bound methods, retiring ones), "
+        "real TableConverters and TableConverter sub-classes that decline) "
+        "and a token list of <=30 ops over {enter c (optionally with the "
+        "date callable failing on entry), leave, raise(levels, also "
+        "BaseException), register c, remove c, register a temporary "
+        "converter, remove the top, register non-converter, conversion that "
+        "raises inside a block, generic register/remove, register/remove on "
+        "types derived from Money and from the generic type, 'the next call "
+        "is made from another thread'}, the first tokens enumerating all "
+        "short prefixes, executed with genuine nested with-statements; "
         "after every token the converter lists and conversions for every "
         "ordered unit pair are compared with the RefStack model. A history "
         "is distinct by the digest of (configuration, tokens) and "
@@ -1122,7 +1129,10 @@ RULE = ("run i draws, from random.Random(splitmix64(VERIF_SEED,'C12',i)), a "
         "rejected removal/registration, __exit__ not on top, conversion "
         "raising in a block) and >=4 observation sweeps followed.")
 ASSUMPTIONS = [
-    "single-threaded use (no property quantifies over schedules)",
+    "no concurrent schedules (no property quantifies over them): calls "
+    "from other threads are made one at a time, the calling thread waits; "
+    "a call that does not return within 4.5 s without its thread moving is "
+    "reported as a hang",
     "python runs without -O (rejections implemented as assert stay active)",
     "the arithmetic of one converter called directly is trusted (C09/C10/"
     "C14 are not claimed); the model only selects which converter answers",
